@@ -141,14 +141,29 @@ func raceWriteOpts(t *Tape) []resource.WriteOption {
 		}))
 	}
 	if t.Flag(1, 4) {
-		opts = append(opts, resource.WithUpdatePaths("default_int32", "default_string"))
+		if t.Flag(1, 2) {
+			// one option value (and with it one field mask) used for many writes, the way a caller keeps a package-level
+			// "only these fields" option around: the library may read it, never write it
+			opts = append(opts, sharedUpdatePaths)
+		} else {
+			opts = append(opts, resource.WithUpdatePaths("default_int32", "default_string"))
+		}
 	}
 	return opts
 }
 
+// (deliberately not in normal form - unsorted, with a path that another one covers - like masks callers write by hand)
+var sharedUpdatePaths = resource.WithUpdatePaths("default_string", "default_int32", "default_nested_message.a", "default_nested_message")
+
 func raceValue(w *World) {
 	t := w.Tape
-	v := resource.NewValue(resource.WithInitialValue(tam(0)))
+	vopts := []resource.Option{resource.WithInitialValue(tam(0))}
+	if t.Flag(1, 3) {
+		// a resource that restricts what may be written (as several memory devices do): update masks are validated
+		// against the writable fields
+		vopts = append(vopts, resource.WithWritablePaths(&testproto.TestAllTypes{}, "default_int32", "default_int64", "default_uint32", "default_string", "repeated_int32", "default_nested_message"))
+	}
+	v := resource.NewValue(vopts...)
 	nt := 2 + t.Choose(3)
 	lists := make([][]raceOp, nt)
 	n := int32(0)
